@@ -12,7 +12,7 @@ use std::sync::Arc;
 use std::thread::ThreadId;
 use std::time::{Duration, Instant};
 
-use verif_harness::locks::Recorder;
+use verif_harness::locks::{Recorder, SyncEv};
 use verif_harness::pollworld::{MonitorThread, SimChain};
 use verif_harness::world::{initial_chain, Cfg, Meta, Op, Reply, World};
 use verif_harness::{env_u64, Line};
@@ -57,6 +57,14 @@ struct Run {
     forced: bool,
     hit: bool,
     waiter: &'static str,
+    /// API worker threads in the order they were started
+    api_tids: Vec<ThreadId>,
+    /// the scenario as the model driver replays it (one item per step)
+    mdl: Vec<String>,
+    /// length of the node's wire log when the outage was armed
+    wire_mark: i64,
+    /// per-thread traces (node's wire log, condition-variable events) taken before any forced release
+    snapshot: Option<(String, String)>,
 }
 
 fn work_dir(tag: &str) -> PathBuf {
@@ -74,6 +82,7 @@ impl Run {
         chain.source.0.lock().unwrap().link = Some(link.clone());
         let mon = MonitorThread::spawn(chain.source.clone(), chain.tip_header(), &w);
         let mon_tid = mon.handle.as_ref().map(|h| h.thread().id());
+        rec.start_trace();
         Run {
             w,
             chain,
@@ -90,6 +99,69 @@ impl Run {
             forced: false,
             hit: false,
             waiter: "none",
+            api_tids: Vec::new(),
+            mdl: Vec::new(),
+            wire_mark: -1,
+            snapshot: None,
+        }
+    }
+
+    fn role(&self, t: ThreadId) -> String {
+        if Some(t) == self.mon_tid {
+            return "m".into();
+        }
+        match self.api_tids.iter().position(|x| *x == t) {
+            Some(k) => format!("a{k}"),
+            None => "x".into(),
+        }
+    }
+
+    /// the node's wire log and the condition-variable events, per thread, in order
+    fn traces(&self) -> (String, String) {
+        let wire: Vec<String> = {
+            let st = self.w.node.0.lock().unwrap();
+            st.wire
+                .iter()
+                .map(|(t, k, txid, answered)| {
+                    let id = txid.and_then(|x| self.w.id_of_txid.get(&x).map(|v| *v as i64)).unwrap_or(-2);
+                    format!("{}:{}:{}:{}", self.role(*t), *k as u8, id, if *answered { "K" } else { "E" })
+                })
+                .collect()
+        };
+        let sync: Vec<String> = self
+            .rec
+            .trace()
+            .iter()
+            .map(|(t, e)| match e {
+                SyncEv::Wait(held) => {
+                    let mut h = held.clone();
+                    h.sort();
+                    format!("{}:W:{}", self.role(*t), h.iter().map(|x| x.to_string()).collect::<Vec<_>>().join("+"))
+                }
+                SyncEv::Wake => format!("{}:K:", self.role(*t)),
+                SyncEv::Notify => format!("{}:N:", self.role(*t)),
+            })
+            .collect();
+        (wire.join("/"), sync.join("/"))
+    }
+
+    fn mdl_of(&self, s: &Step) -> String {
+        match s {
+            Step::Api(Op::Register(u)) => format!("R:{u}"),
+            Step::Api(Op::Add { signer, loc, blob, delay, .. }) => {
+                let ab = self.w.blobs[*blob].1;
+                format!("A:{signer}:{loc}:{}:{}:{}:{delay}", ab.key, ab.pay, ab.len)
+            }
+            Step::Api(Op::Get { signer, loc, .. }) => format!("G:{signer}:{loc}"),
+            Step::Api(Op::GetSub { signer, .. }) => format!("S:{signer}"),
+            Step::Api(_) => "Z".into(),
+            Step::Mine(txs) => format!("M:{}", txs.iter().map(|t| t.to_string()).collect::<Vec<_>>().join(":")),
+            Step::Reorg(..) => "X".into(),
+            Step::Poll => "P".into(),
+            Step::ArmOutage(n) => format!("O:{n}"),
+            Step::NodeUp => "U".into(),
+            Step::FailBlock(j) => format!("F:{j}"),
+            Step::Probe => "S:-1".into(),
         }
     }
 
@@ -141,6 +213,8 @@ impl Run {
     }
 
     fn step(&mut self, s: &Step, idx: usize) {
+        let item = self.mdl_of(s);
+        self.mdl.push(item);
         match s {
             Step::Api(op) => {
                 let (call, meta) = self.w.prepare(op);
@@ -151,6 +225,7 @@ impl Run {
                     let _ = tx.send(r);
                 });
                 let tid = h.thread().id();
+                self.api_tids.push(tid);
                 match self.settle(Some(tid), &rx) {
                     Some(reply) => {
                         let toks = self.w.render(&meta, reply);
@@ -214,6 +289,7 @@ impl Run {
             Step::ArmOutage(n) => {
                 let mut st = self.w.node.0.lock().unwrap();
                 st.outage_at = Some(st.calls + n);
+                self.wire_mark = st.wire.len() as i64;
             }
             Step::NodeUp => {
                 self.link.store(false, Ordering::SeqCst);
@@ -231,6 +307,7 @@ impl Run {
                     let _ = tx.send(runner.run(call));
                 });
                 let tid = h.thread().id();
+                self.api_tids.push(tid);
                 match self.settle(Some(tid), &rx) {
                     Some(reply) => {
                         let toks = self.w.render(&meta, reply);
@@ -260,6 +337,7 @@ impl Run {
     fn finish(mut self) -> Vec<String> {
         // give the tower what it needs to recover by itself: node up, two successful polls
         self.link.store(false, Ordering::SeqCst);
+        self.mdl.push("U".into());
         for i in 0..2 {
             if !self.mon.polling {
                 self.step(&Step::Poll, 900 + i);
@@ -268,6 +346,7 @@ impl Run {
         self.collect_finished();
         self.monitor_stuck = self.mon.polling;
         self.api_stuck = !self.inflight.is_empty();
+        self.snapshot = Some(self.traces());
         if self.monitor_stuck || self.api_stuck {
             // nothing in the tower can wake these threads; release them so the process can go on
             self.forced = true;
@@ -302,6 +381,11 @@ impl Run {
         out.push(format!("probes={}/{}", self.probes_refused, self.probes_during_outage));
         out.push(format!("lkb={lkb_height}"));
         out.push(format!("tip={}", self.chain.height()));
+        let (wire, sync) = self.snapshot.clone().unwrap_or_default();
+        out.push(format!("wmark={}", self.wire_mark));
+        out.push(format!("wire={wire}"));
+        out.push(format!("sync={sync}"));
+        out.push(format!("mdl={}", self.mdl.join("/")));
         out.push(format!("state=[{}]", line.0));
         let _ = sends;
         self.mon.stop();
